@@ -149,7 +149,9 @@ def renderConsumer (x : Consumer) : Fields :=
    ("removal", match x.removal with | some t => toString t | none => "-"),
    ("minpow", match x.minpow with | some t => toString t | none => "-"),
    ("infr", renderInfr x.infr), ("qinfr", renderInfr x.qinfr),
-   ("ka", fmtPairs x.ka), ("byaddr", fmtPairs x.byaddr), ("prune", renderPrune x.prune),
+   ("ka", ",".intercalate (isort (fun a b => decide (a ≤ b)) (x.ka.map fun p => s!"{p.1}:{p.2}"))),
+   ("byaddr", ",".intercalate (isort (fun a b => decide (a ≤ b)) (x.byaddr.map fun p => s!"{p.1}:{p.2}"))),
+   ("prune", renderPrune x.prune),
    ("inith", match x.initH with | some t => toString t | none => "-"),
    ("evmin", toString x.evmin)]
 
@@ -316,6 +318,38 @@ def stepProvCore (d : ProvDrv) (a : Acc) (s : Step) : ProvDrv × Acc :=
     let a := if (st3.consumers.filter fun x => x.phase == .deleted && (st.get x.id).phase != .deleted).isEmpty then a else a.tag "deleted"
     let a := if st.spawnQ != st3.spawnQ || st.removeQ != st3.removeQ || st.infrQ != st3.infrQ then { a with nontrivial := a.nontrivial + 1 } else a
     ({ impl := after }, compareState a s.lineNo st3 after lifecycleFields lifecycleGlobals)
+  | "assign" =>
+    match msgAssignKey st (s.op.get "c") (s.op.nat "v") (s.op.nat "signer") (s.op.nat "key") with
+    | none => ({ impl := after }, (a.tag "assign-rejected").cmp s.lineNo "assign.res" "err" res)
+    | some st' =>
+      let a := { (a.tag "assign-ok").cmp s.lineNo "assign.res" "ok" res with nontrivial := a.nontrivial + 1 }
+      ({ impl := after }, if res == "ok" then compareState a s.lineNo st' after lifecycleFields lifecycleGlobals else a)
+  | "optin" =>
+    let key := if s.op.get "key" == "-" || s.op.get "key" == "" then none else some (s.op.nat "key")
+    match msgOptIn st (s.op.get "c") (s.op.nat "v") (s.op.nat "signer") key with
+    | none => ({ impl := after }, (a.tag "optin-rejected").cmp s.lineNo "optin.res" "err" res)
+    | some st' =>
+      let a := { (a.tag "optin-ok").cmp s.lineNo "optin.res" "ok" res with nontrivial := a.nontrivial + 1 }
+      ({ impl := after }, if res == "ok" then compareState a s.lineNo st' after lifecycleFields lifecycleGlobals else a)
+  | "optout" =>
+    match msgOptOut st (s.op.get "c") (s.op.nat "v") (s.op.nat "signer") with
+    | none => ({ impl := after }, (a.tag "optout-rejected").cmp s.lineNo "optout.res" "err" res)
+    | some st' =>
+      let a := { (a.tag "optout-ok").cmp s.lineNo "optout.res" "ok" res with nontrivial := a.nontrivial + 1 }
+      ({ impl := after }, if res == "ok" then compareState a s.lineNo st' after lifecycleFields lifecycleGlobals else a)
+  | "newval" =>
+    let v := s.op.nat "v"
+    if valExists st v then ({ impl := after }, a.cmp s.lineNo "newval.res" "err" res)
+    else
+      let inUse := validatorKeyInUse st v
+      let a := (a.tag (if inUse then "newval-blocked" else "newval-ok")).cmp s.lineNo "newval.res" (if inUse then "panic" else "ok") res
+      ({ impl := after }, compareState a s.lineNo st after lifecycleFields lifecycleGlobals)
+  | "rmval" =>
+    if !valExists st (s.op.nat "v") then ({ impl := after }, a.cmp s.lineNo "rmval.res" "err" res)
+    else
+      let st' := afterValidatorRemoved st (s.op.nat "v")
+      let a := (a.tag "rmval-ok").cmp s.lineNo "rmval.res" "ok" res
+      ({ impl := after }, compareState a s.lineNo st' after lifecycleFields lifecycleGlobals)
   | "chantry" | "chaninit" =>
     let connOf := fun (h : String) =>
       match (before.conns.get h).splitOn "|" with
